@@ -15,7 +15,7 @@ import (
 func init() {
 	register(&propDef{
 		ID:          "C06",
-		Explanation: "Totality and promptness of the parser over all byte strings are runtime facts and are R4 (termination of the top-level loop) every parser that has read one of the template keywords (templ / css / script) turns each later failed sub-parse into an error — it never declines with ok=false and a nil error, because the Go-code reader un-reads keyword lines containing an opening parenthesis and asks these parsers again; R5 every write into a strings.Builder whose String() becomes an Expression's text is text consumed from the input (result of Parse/Take), never a constant. R6 every `until` lookahead handed to the node-list parser (which rewinds after a match) is flat: it does not reach the node-list parser again, so no branch is parsed twice per nesting level. R7 the text handed to the whole-file entry points (ParseString, parse.NewInput) in parser/v2, the LSP proxy and generatecmd is the text that was read: no strings/bytes/regexp/unicode call that produces text lies on its way (a stripped BOM or converted line ending shifts every recorded position against the file); the un-read test of R4 may be a regular expression, whose required prefixes are then enumerated from the pattern. Decides the position-provenance clauses of the property, for all sites of package parser/v2 and goexpression: R1 every Expression/Range built by the parser goes through NewExpression/NewRange with positions that are parse.Position values obtained from the input being parsed (Position()/PositionAt(), or locals/parameters of that type); no Position, Range or Expression composite literal with position fields exists outside the three constructors, and the constructors copy index, line and column field by field; direct writes to Index/Line/Col exist only as a paired adjustment of Index and Col of the same position by the same constant; R2 every NameRange is NewRange(PositionAt(Index() − len(X.Name)), Position()) where X.Name is the field assigned by the name parser in the statement just before, for the same X; R3 (clamps) the bounds that come from go/parser positions are clamped before they are used to slice the source: in the extractor wrapper `end > len(content) → end = len(content)` and `start > end → start = end` follow the prefix subtraction and precede the return, and every slice bound taken from a go/ast End() position is tested (rejected or clamped) before the slice; parseGo slices and advances with the extractor's own start/end and converts them with PositionAt(from+start / from+end). NOT decided: absence of panics and hangs on arbitrary input, that the recorded text equals the source at the recorded range for every construct (value-level), error positions. R5 also: the text handed to NewExpression is the consumed input, untransformed (no trimming / case folding of a slice of the input); R8 a look-ahead that un-reads a line and hands over to other parsers tests the line as it was read. R9 where an expression's text is made of parser results, its range brackets them: the end is read after the last contributing parser ran, the start before the first one of the same loop round (never between them, never only before the loop); R10 in the Go-fragment scanner the last element of a stack is accessed only where the stack is known to be non-empty (in the method, or at every one of its call sites).",
+		Explanation: "Totality and promptness of the parser over all byte strings are runtime facts and are R4 (termination of the top-level loop) every parser that has read one of the template keywords (templ / css / script) turns each later failed sub-parse into an error — it never declines with ok=false and a nil error, because the Go-code reader un-reads keyword lines containing an opening parenthesis and asks these parsers again; R5 every write into a strings.Builder whose String() becomes an Expression's text is text consumed from the input (result of Parse/Take), never a constant. R6 every `until` lookahead handed to the node-list parser (which rewinds after a match) is flat: it does not reach the node-list parser again, so no branch is parsed twice per nesting level. R7 the text handed to the whole-file entry points (ParseString, parse.NewInput) in parser/v2, the LSP proxy and generatecmd is the text that was read: no strings/bytes/regexp/unicode call that produces text lies on its way (a stripped BOM or converted line ending shifts every recorded position against the file); the un-read test of R4 may be a regular expression, whose required prefixes are then enumerated from the pattern. Decides the position-provenance clauses of the property, for all sites of package parser/v2 and goexpression: R1 every Expression/Range built by the parser goes through NewExpression/NewRange with positions that are parse.Position values obtained from the input being parsed (Position()/PositionAt(), or locals/parameters of that type); no Position, Range or Expression composite literal with position fields exists outside the three constructors, and the constructors copy index, line and column field by field; direct writes to Index/Line/Col exist only as a paired adjustment of Index and Col of the same position by the same constant; R2 every NameRange is NewRange(PositionAt(Index() − len(X.Name)), Position()) where X.Name is the field assigned by the name parser in the statement just before, for the same X; R3 (clamps) the bounds that come from go/parser positions are clamped before they are used to slice the source: in the extractor wrapper `end > len(content) → end = len(content)` and `start > end → start = end` follow the prefix subtraction and precede the return, and every slice bound taken from a go/ast End() position is tested (rejected or clamped) before the slice; parseGo slices and advances with the extractor's own start/end and converts them with PositionAt(from+start / from+end). NOT decided: absence of panics and hangs on arbitrary input, that the recorded text equals the source at the recorded range for every construct (value-level), error positions. R5 also: the text handed to NewExpression is the consumed input, untransformed (no trimming / case folding of a slice of the input); R8 a look-ahead that un-reads a line and hands over to other parsers tests the line as it was read. R9 where an expression's text is made of parser results, its range brackets them: the end is read after the last contributing parser ran, the start before the first one of the same loop round (never between them, never only before the loop); R10 in the Go-fragment scanner the last element of a stack is accessed only where the stack is known to be non-empty (in the method, or at every one of its call sites). R3 also: a caller that hands the extraction wrapper a text with a second synthetic prefix subtracts that prefix from the wrapper's results, after the wrapper's clamp (never inside the extractor closure).",
 		Assumptions: []string{"github.com/a-h/parse Input.Position/PositionAt derive line and column from the byte index through its newline table"},
 		Trusted:     []string{"go/types", "x/tools go/packages, go/cfg"},
 		Run:         runC06,
@@ -319,6 +319,63 @@ func runC06(c *Ctx) {
 			"the extraction wrapper no longer clamps `end` to len(content) after subtracting the synthetic prefix: go/parser positions past the input (error recovery) would slice out of range")
 		c.check(clampStart, "C06.R3", key+"|start-clamped-to-end", c.pos(wrap.Pos()), "start is clamped to end",
 			"the extraction wrapper no longer clamps `start` to `end`: src[start:end] panics when go/parser reports an end before the start")
+	}
+	// callers that hand the wrapper MORE than their own content (a second synthetic prefix, `"switch {\n" + content`):
+	// the wrapper clamps against the text it is given, so such a caller removes its prefix's length from the wrapper's
+	// RESULTS — after the clamp. Removing it inside the extractor closure (before the clamp) leaves `end` bounded by the
+	// wrapped text, up to len(prefix) past the caller's content: src[:end] panics on input that stops mid-clause.
+	if wrap != nil {
+		nwrapped := 0
+		for _, fd := range allFuncDecls(gp) {
+			if fd == wrap || fd.Body == nil {
+				continue
+			}
+			var ownContent types.Object
+			for _, prm := range paramObjs(ginfo, fd) {
+				if prm != nil && isStringType(prm.Type()) && ownContent == nil {
+					ownContent = prm
+				}
+			}
+			ast.Inspect(fd.Body, func(x ast.Node) bool {
+				call, ok := x.(*ast.CallExpr)
+				if !ok || types.Object(calleeOf(ginfo, call)) != ginfo.Defs[wrap.Name] || len(call.Args) == 0 {
+					return true
+				}
+				arg := unfoldLocals(gp, fd, call.Args[0])
+				if id, ok := ast.Unparen(arg).(*ast.Ident); ok && ginfo.ObjectOf(id) == ownContent {
+					return true // the caller's content as it is
+				}
+				be, ok := ast.Unparen(arg).(*ast.BinaryExpr)
+				if !ok || be.Op != token.ADD {
+					return true
+				}
+				nwrapped++
+				// the statement the call sits in, at the top level of the caller
+				after := 0
+				var callStmt ast.Stmt
+				for _, st := range fd.Body.List {
+					if st.Pos() <= call.Pos() && call.End() <= st.End() {
+						callStmt = st
+						continue
+					}
+					if callStmt != nil {
+						if as, ok := st.(*ast.AssignStmt); ok && as.Tok == token.SUB_ASSIGN && len(as.Rhs) == 1 {
+							after++
+						}
+						if as, ok := st.(*ast.AssignStmt); ok && as.Tok == token.ASSIGN && len(as.Rhs) == 1 && len(as.Lhs) == 1 {
+							if sub, ok := ast.Unparen(as.Rhs[0]).(*ast.BinaryExpr); ok && sub.Op == token.SUB && types.ExprString(sub.X) == types.ExprString(as.Lhs[0]) {
+								after++
+							}
+						}
+					}
+				}
+				_, direct := callStmt.(*ast.ReturnStmt)
+				c.check(after >= 2 && !direct, "C06.R3", funcKey(gp, fd)+"|own-prefix-removed-after-the-clamp", c.pos(call.Pos()), "the caller's own prefix is subtracted from the wrapper's results (after the wrapper clamped them)",
+					fmt.Sprintf("%s hands %s a text with a second synthetic prefix but does not subtract that prefix's length from the returned start and end: the wrapper's clamp bounds `end` by the wrapped text, so it can lie up to len(prefix) past the real content — the parser then slices beyond its input (panic) on a clause that is cut off", fd.Name.Name, wrap.Name.Name))
+				return true
+			})
+		}
+		c.count("extract_callers_with_own_prefix", nwrapped)
 	}
 	// function-declaration extractor: guard before slicing
 	for _, fd := range allFuncDecls(gp) {
